@@ -1,6 +1,7 @@
 package simrt
 
 import (
+	"io"
 	"crypto/sha1"
 	"encoding/hex"
 	"fmt"
@@ -651,6 +652,62 @@ func (sh *Shell) readFifoN(n *Inode, path string, limit int) ([]byte, bool) {
 	p.readers--
 	sh.wakePipe(p)
 	return data, true
+}
+
+// readOpenFifo / writeOpenFifo / closeOpenFifo: the single calls of a FIFO end
+// that Go code holds open (os.Open + Read + Close).
+func (sh *Shell) readOpenFifo(n *Inode, path string, b []byte) (int, error) {
+	s := sh.s
+	p := sh.pipeOf(n)
+	for {
+		s.Pre("fifo-read", n.Ino, path)
+		if len(p.buf) > 0 {
+			k := copy(b, p.buf)
+			p.buf = p.buf[k:]
+			sh.wakePipe(p)
+			return k, nil
+		}
+		if p.writers == 0 {
+			return 0, io.EOF
+		}
+		sh.waitPipe(p, "read of fifo "+path)
+	}
+}
+
+func (sh *Shell) writeOpenFifo(n *Inode, path string, data []byte) bool {
+	s := sh.s
+	p := sh.pipeOf(n)
+	for off := 0; off < len(data); {
+		s.Pre("fifo-write", n.Ino, path)
+		if p.readers == 0 {
+			return false
+		}
+		room := s.Cfg.PipeCap - len(p.buf)
+		if room <= 0 {
+			s.Probe("pipe-full")
+			sh.waitPipe(p, "write to full fifo "+path)
+			continue
+		}
+		k := len(data) - off
+		if k > room {
+			k = room
+		}
+		p.buf = append(p.buf, data[off:off+k]...)
+		off += k
+		sh.wakePipe(p)
+	}
+	return true
+}
+
+func (sh *Shell) closeOpenFifo(n *Inode, path string, writeEnd bool) {
+	p := sh.pipeOf(n)
+	sh.s.Pre("fifo-close", n.Ino, path)
+	if writeEnd {
+		p.writers--
+	} else {
+		p.readers--
+	}
+	sh.wakePipe(p)
 }
 
 // writeFifo: open, write in chunks (blocking while the pipe is full), close.
